@@ -133,6 +133,17 @@ Definition gf_blocks_spec (z : K) : K :=
 
 Hypothesis BS : blocks_sound.
 
+Lemma filter_all_true {A} (p : A -> bool) (l : list A) : (forall x, In x l -> p x = true) -> filter p l = l.
+Proof.
+  induction l as [|x l IH]; intros H; [reflexivity|]. cbn [filter]. rewrite (H x (or_introl eq_refl)).
+  f_equal. apply IH. intros y Hy. apply H. right. exact Hy.
+Qed.
+
+Lemma kadd_0_r (a : K) : kadd a k0 = a.
+Proof. ring. Qed.
+Lemma kadd_0_l (a : K) : kadd k0 a = a.
+Proof. ring. Qed.
+
 Lemma ksorted_nodup l : ksorted l -> NoDup l.
 Proof.
   induction l as [|x l IH]; intros H; [constructor|]. destruct H as [H1 H2]. constructor; [|apply IH; exact H2].
@@ -167,8 +178,8 @@ Proof.
       * apply andb_prop in E. destruct E as [E1 E2]. apply Nat.eqb_eq in E1. apply Nat.eqb_eq in E2.
         assert (Hm : memb (L, R) l = false).
         { apply not_true_iff_false. intros M. apply memb_in in M. apply Hnot. destruct x. cbn in *. subst. exact M. }
-        rewrite Hm. ring.
-      * ring.
+        rewrite Hm. apply kadd_0_r.
+      * apply kadd_0_l.
 Qed.
 
 (** the part made for a selected pair *)
@@ -231,11 +242,11 @@ Proof.
   unfold gf_compute. rewrite (gf_prepare_spec g (bs_cl_sorted BS) (bs_cxr_sorted BS)).
   set (sel := filter (fun lr => g_ret K g (fst lr) || g_ret K g (snd lr)) (stripes_spec (g_cl K g) (g_cxr K g))).
   assert (Esel : sel = stripes_spec (g_cl K g) (g_cxr K g)).
-  { unfold sel. apply forallb_filter_id. apply forallb_forall. intros lr _. rewrite (bs_retained BS). reflexivity. }
+  { unfold sel. apply filter_all_true. intros lr _. rewrite (bs_retained BS). reflexivity. }
   assert (Hsel : forall lr, In lr sel -> In lr (g_cl K g) /\ In lr (g_cxr K g)).
   { intros [L R] H. rewrite Esel in H. apply in_stripes_spec in H. exact H. }
   rewrite (all_some_mkpart sel Hsel). intros E.
-  rewrite (gf_value_sum fixed lenient z _ parts) ; [| |exact E].
+  rewrite (gf_value_sum fixed lenient z (map (fun lr => (lr, part_at lr)) sel) parts) ; [| |exact E].
   2:{ intros p Hp. apply in_map_iff in Hp. destruct Hp as [[L R] [<- Hin]]. cbn [snd].
       destruct (Hsel _ Hin) as [H1 H2]. destruct (selected_part L R H1 H2) as [a [b [Em [_ [_ [W _]]]]]].
       unfold part_at. rewrite Em. exact W. }
@@ -247,5 +258,80 @@ Proof.
   - apply ksorted_nodup. exact (bs_cl_sorted BS).
   - intros [L R] H. exact (bs_cl_range BS L R H).
 Qed.
+
+(** * D. the flattened (global) data: EDSpec.gf *)
+Fixpoint off (b : nat) : nat := match b with O => 0 | S b' => off b' + dim b' end.   (* first global index of block b *)
+
+Lemma bsum_shift (s n : nat) (f : nat -> K) : bsum (seq s n) f = bsum (seq 0 n) (fun k => f (s + k)).
+Proof.
+  revert s f. induction n as [|n IH]; intros s f; [reflexivity|]. cbn [seq bigsum].
+  rewrite (IH (Datatypes.S s) f), (IH 1 (fun k => f (s + k))). rewrite Nat.add_0_r. f_equal. apply BS_ext. intros k _. f_equal. lia.
+Qed.
+
+Lemma bsum_blocks (f : nat -> K) : forall n,
+  bsum (seq 0 (off n)) f = bsum (seq 0 n) (fun b => bsum (seq 0 (dim b)) (fun k => f (off b + k))).
+Proof.
+  induction n as [|n IH]; [reflexivity|]. cbn [off]. rewrite seq_app, BS_app, IH. cbn [plus].
+  rewrite seq_S, BS_app. cbn [bigsum plus]. rewrite (bsum_shift (off n)). ring.
+Qed.
+
+Lemma bsum_combine {A} (F : nat -> A -> K) (d : A) : forall (l : list A) (s : nat),
+  bsum (combine (seq s (length l)) l) (fun ix => F (fst ix) (snd ix)) = bsum (seq s (length l)) (fun i => F i (nth (i - s) l d)).
+Proof.
+  induction l as [|x l IH]; intros s; [reflexivity|]. cbn [length seq combine bigsum fst snd].
+  rewrite Nat.sub_diag. cbn [nth]. f_equal. rewrite IH. apply BS_ext. intros i Hi. apply in_seq in Hi.
+  replace (i - s) with (Datatypes.S (i - Datatypes.S s)) by lia. reflexivity.
+Qed.
+
+Lemma ksum_idx {A} (F : nat -> A -> K) (d : A) (l : list A) :
+  ksum K NO (idx l) (fun ix => F (fst ix) (snd ix)) = bsum (seq 0 (length l)) (fun i => F i (nth i l d)).
+Proof.
+  unfold ksum, idx. rewrite BS_fold, (bsum_combine F d l 0).
+  transitivity (bsum (seq 0 (length l)) (fun i => F i (nth (i - 0) l d))); [ring|].
+  apply BS_ext. intros i _. rewrite Nat.sub_0_r. reflexivity.
+Qed.
+
+(** the assembled global eigenvalues, weights and eigenbasis matrices *)
+Variables (E w : list K) (Ci CXj : list (list K)).
+Record assembled : Prop := {
+  as_rows : length Ci = off nb;
+  as_cols : forall i, i < off nb -> length (nth i Ci []) = off nb;
+  as_C : forall L R n m, L < nb -> R < nb -> n < dim L -> m < dim R -> mget K NO Ci (off L + n) (off R + m) = Cf L n R m;
+  as_CX : forall L R n m, L < nb -> R < nb -> n < dim L -> m < dim R -> mget K NO CXj (off R + m) (off L + n) = CXf R m L n;
+  as_E : forall b k, b < nb -> k < dim b -> nth (off b + k) E k0 = nth k (g_E K g b) k0;
+  as_w : forall b k, b < nb -> k < dim b -> nth (off b + k) w k0 = nth k (g_W K g b) k0
+}.
+Hypothesis AS : assembled.
+
+Lemma off_mono : forall b n, b < n -> off b + dim b <= off n.
+Proof. induction n as [|n IH]; intros H; [lia|]. cbn [off]. destruct (Nat.eq_dec b n) as [->|]; [lia|]. specialize (IH ltac:(lia)). lia. Qed.
+
+Theorem gf_full_is_blocks z : gf K NO E w Ci CXj z = gf_blocks_spec z.
+Proof.
+  unfold gf.
+  rewrite (ksum_idx (fun n row => ksum K NO (idx row) (fun mc =>
+             kdiv (kmul (kmul (snd mc) (mget K NO CXj (fst mc) n)) (kadd (nth n w k0) (nth (fst mc) w k0)))
+                  (ksub z (ksub (nth (fst mc) E k0) (nth n E k0))))) [] Ci).
+  rewrite (as_rows AS), bsum_blocks. unfold gf_blocks_spec.
+  apply BS_ext. intros L HL. apply in_seq in HL.
+  transitivity (bsum (seq 0 (dim L)) (fun n => bsum (seq 0 nb) (fun R => bsum (seq 0 (dim R)) (fun m => block_term z L R n m)))).
+  2:{ rewrite (bigsum_swap K k0 k1 kadd kmul ksub kopp Kr). reflexivity. }
+  apply BS_ext. intros n Hn. apply in_seq in Hn.
+  pose proof (off_mono L nb ltac:(lia)) as HoL.
+  rewrite (ksum_idx (fun m c => kdiv (kmul (kmul c (mget K NO CXj m (off L + n))) (kadd (nth (off L + n) w k0) (nth m w k0)))
+                                     (ksub z (ksub (nth m E k0) (nth (off L + n) E k0)))) k0 (nth (off L + n) Ci [])).
+  rewrite (as_cols AS) by lia. rewrite bsum_blocks.
+  apply BS_ext. intros R HR. apply in_seq in HR. apply BS_ext. intros m Hm. apply in_seq in Hm.
+  unfold block_term.
+  rewrite <- (as_C AS L R n m) by lia. rewrite <- (as_CX AS L R n m) by lia.
+  rewrite (as_E AS L n), (as_E AS R m), (as_w AS L n), (as_w AS R m) by lia.
+  reflexivity.
+Qed.
+
+(** the headline: for a sound block structure and assembled global data, the value the library's algorithm computes
+    (any mode of the loops that returns; exact form) is the full-space Lehmann sum of the specification *)
+Theorem gf_blocks_eq_full fixed lenient z parts :
+  gf_compute K NO fixed lenient T g = WDone parts -> gf_value K NO parts z = gf K NO E w Ci CXj z.
+Proof. intros H. rewrite gf_full_is_blocks. apply (gf_blocks_sum fixed lenient z parts H). Qed.
 
 End Full.
